@@ -107,6 +107,8 @@ def monitorOp (s : St) (inputs : List (Nat × Item)) (implD : List (Nat × Item)
   let clk' := inputs.foldl (fun c p => if p.1 + 1 > c then p.1 + 1 else c) s.clk
   let s' := { s with received := inputs.reverse ++ s.received, delivered := implD.reverse ++ s.delivered,
                      clk := clk', wrapSeen := wrapNow }
+  -- nothing older than the join / restart cut-off is delivered
+  let belowCut := implD.find? fun d => d.1 < s.minT
   let verdict : Option (String × String) :=
     match spurious, dup, missing with
     | some d, _, _ => some ("spurious-delivery", s!"delivered {d.1}/{d.2.1}/{d.2.2}, which this operation did not carry")
@@ -115,7 +117,10 @@ def monitorOp (s : St) (inputs : List (Nat × Item)) (implD : List (Nat × Item)
                  else s!"user event {d.1}/{d.2.1}/{d.2.2} reached the application a second time")
     | _, _, some p => some ("fresh-not-delivered",
         s!"first-time event {p.1}/{p.2.1}/{p.2.2} inside the window and not below the cut-off was not delivered")
-    | _, _, _ => none
+    | _, _, _ =>
+      match belowCut with
+      | some d => some ("below-cutoff-delivered", s!"user event {d.1}/{d.2.1}/{d.2.2} is older than the cut-off {s.minT} and was delivered")
+      | none => none
   (s', verdict)
 
 def natItems (l : List (W × Item)) : List (Nat × Item) := l.map fun p => (p.1.toNat, p.2)
